@@ -103,6 +103,9 @@ def line_name(case):
     return None  # model lines are issued per value below (needs the coerced fields)
 
 
+NAME_FORMS = {"readable": 0, "hashed": 0, "hashed_below_the_model's_threshold": 0}
+
+
 def judge_names(case, im, mo):
     vals = im["vals"]
     ex = im.get("export")
@@ -123,11 +126,15 @@ def judge_names(case, im, mo):
                 yield ("pred", f"value {case['values'][i]}: call by keywords and call by instance give two modules: {f['kw']!r} / {f['inst']!r}", "forms")
             elif f["inst"] != "G(" + a["name"] + ")":
                 yield ("pred", f"value {case['values'][i]}: module named {f['inst']!r}, its parameters are named {a['name']!r}", "forms")
-        if len(model) < 128:
-            if a["name"] != model:
-                yield ("corr", f"value {case['values'][i]}: name {a['name']!r} vs model {model!r}")
-        elif not re.fullmatch(r"[0-9a-f]{32}", a["name"]):
-            yield ("corr", f"value {case['values'][i]}: long name not hashed: {a['name'][:40]!r}")
+        # A name is the readable text of the values (the model's, whose injectivity is `readable_injective`) or a digest of them (`hashed`
+        # stream). At which length the code switches from the one to the other is its own business: the property asks that unequal values
+        # get different names and equal ones the same, which is judged below on the names as they are.
+        if a["name"] == model:
+            NAME_FORMS["readable"] += 1
+        elif re.fullmatch(r"[0-9a-f]{32}", a["name"]):
+            NAME_FORMS["hashed" if len(model) >= 128 else "hashed_below_the_model's_threshold"] += 1
+        else:
+            yield ("corr", f"value {case['values'][i]}: name {a['name'][:60]!r} is neither the readable text {model[:60]!r} nor a digest")
         for j in range(i):
             b = vals[j]
             if "reject" in b:
@@ -482,6 +489,54 @@ def collections_check(ctx):
             rep.fail("pred", {"stream": "collections", "shape": nm}, f"different {nm}-valued parameters share a module or a name: {a.name!r} / {c.name!r}", "names")
 
 
+
+def spellings_check(ctx):
+    """Equal parameter values written or built differently — another prefix, trailing zeros, another insertion order of a (nested)
+    set — each handed to a generator object of its own (so that no cache answers for the other): the name suffix depends on the
+    value alone, not on how it was put down or which spelling a process saw first."""
+    rep = ctx.rep
+    from decimal import Decimal as D
+    from typing import FrozenSet, Optional, Tuple
+
+    P_ = h.prefix
+    groups = [
+        ("pre", h.Prefixed, [[1 * P_.µ, 1000 * P_.n, h.Prefixed(number=D("1.0"), prefix=P_.µ), h.Prefixed(number=D("0.001"), prefix=P_.m), h.Prefixed(number=D("1E-6"), prefix=P_.UNIT)],
+                             [150 * P_.n, h.Prefixed(number=D("0.15"), prefix=P_.µ), h.Prefixed(number=D("0.150"), prefix=P_.µ)],
+                             [h.Prefixed.new(5), 5000 * P_.m, h.Prefixed(number=D("0.005"), prefix=P_.K)]]),
+        ("opre", Optional[h.Prefixed], [[2 * P_.K, 2000 * P_.UNIT, h.Prefixed(number=D("2.00"), prefix=P_.K)]]),
+        ("fs", FrozenSet[int], [[frozenset([0, 8, 16]), frozenset([16, 8, 0]), frozenset([8, 0, 16, 8])]]),
+        ("fss", FrozenSet[str], [[frozenset(["tt", "ff", "ss"]), frozenset(["ss", "ff", "tt"])]]),
+        ("nested", FrozenSet[FrozenSet[int]], [[frozenset([frozenset([0, 8]), frozenset([1])]), frozenset([frozenset([1]), frozenset([8, 0])])],
+                                               [frozenset([frozenset([3, 11, 19]), frozenset([19, 27])]), frozenset([frozenset([27, 19]), frozenset([19, 11, 3])])]]),
+    ]
+    for nm, dt, families in groups:
+        for extra in (False, True):  # alone (the readable form, where the field's type allows it), and next to a tuple (the hashed form)
+            fields = {"x": h.Param(dtype=dt, desc="x")}
+            if extra:
+                fields["t"] = h.Param(dtype=Tuple[int, ...], desc="t", default=(1, 2))
+            P = h.paramclass(type("SP", (), fields))
+            for fam in families:
+                case = {"stream": "spellings", "field": nm, "hashed_form": extra, "values": [repr(v) for v in fam]}
+                rep.count("spellings", json.dumps(case))
+                suffixes = []
+                for k, v in enumerate(fam):
+                    def body(p: P) -> h.Module:
+                        return h.Module()
+
+                    body.__name__ = f"Sp{k}"
+                    try:
+                        m = h.generator(body)(x=v)
+                        suffixes.append(m.name[len(f"Sp{k}"):])
+                    except Exception as ex:  # noqa — a value that cannot key the cache is refused, which is allowed
+                        suffixes.append(None)
+                try:
+                    equal = all(P(x=fam[0]) == P(x=v) for v in fam)
+                except Exception:  # noqa
+                    equal = False
+                named = [s_ for s_ in suffixes if s_ is not None]
+                if equal and len(set(named)) > 1:
+                    rep.fail("pred", case, {"why": "equal parameter values get different names depending on how they were written", "suffixes": suffixes}, "names")
+
 LIB_SRC = """
 import hdl21 as h
 
@@ -809,6 +864,7 @@ def run(ctx):
         collision_search(ctx)  # thorough tier, and the failing-input search whenever the tie is broken
     SC.run(ctx, [gen_prog(rng) for _ in range(200 if ctx.quick else 4000)])
     shapes_check(ctx)
+    spellings_check(ctx)
     scalar_check(ctx)
     uncached_check(ctx)
     collections_check(ctx)
